@@ -157,7 +157,23 @@ pub fn run(ctx: &Ctx, rep: &mut Reporter) {
     let thorough = ctx.tier == Tier::Thorough;
     for case_idx in ctx.case_range() {
         let mut rng = ctx_rng(ctx, case_idx);
-        let ast = gen_file(&mut rng, case_idx, thorough && !ctx.slow());
+        let mut ast = gen_file(&mut rng, case_idx, thorough && !ctx.slow());
+        // a file saved with a UTF-8 byte order mark: the mark is part of the first line, which
+        // therefore is an unparseable line unless it is a class line (whose name then starts
+        // with the mark) — the metadata answers are folds over THAT record stream
+        if rng.chance(1, 12) {
+            if let Some(first) = ast.items.first().cloned() {
+                let marked = match &first {
+                    Item::Class { orig, obf } => Some(Item::Class { orig: format!("\u{feff}{orig}"), obf: obf.clone() }),
+                    Item::HeaderKV { .. } | Item::SourceFileJson { .. } | Item::Method(_) | Item::Field { .. } => Some(Item::Noise(format!("\u{feff}{}", first.print()))),
+                    _ => None,
+                };
+                if let Some(m) = marked {
+                    ast.items[0] = m;
+                    rep.count("files_starting_with_a_byte_order_mark", 1);
+                }
+            }
+        }
         let term = *rng.pick(&Term::ALL);
         let trailing = rng.chance(1, 2);
         // Records need not be aligned with physical lines: the record iterator resumes right
